@@ -172,6 +172,50 @@ func extractRest9(l *loaded, genDir, jsonDir string) error {
 								}
 							}
 						}
+						// every `return` of the callback that is not `return true` must sit directly under `if <x> == nil`
+						var chk func(n ast.Node, nilGuard bool)
+						chk = func(n ast.Node, nilGuard bool) {
+							switch x := n.(type) {
+							case *ast.ReturnStmt:
+								if len(x.Results) != 1 {
+									descends = false
+									return
+								}
+								if id, ok := x.Results[0].(*ast.Ident); !ok || (id.Name != "true" && !nilGuard) {
+									descends = false
+								}
+							case *ast.IfStmt:
+								g := false
+								if be, ok := x.Cond.(*ast.BinaryExpr); ok && be.Op == token.EQL {
+									if id, ok := be.Y.(*ast.Ident); ok && id.Name == "nil" {
+										g = true
+									}
+								}
+								for _, st := range x.Body.List {
+									chk(st, g)
+								}
+								if x.Else != nil {
+									chk(x.Else, false)
+								}
+							case *ast.BlockStmt:
+								for _, st := range x.List {
+									chk(st, false)
+								}
+							case *ast.TypeSwitchStmt:
+								chk(x.Body, false)
+							case *ast.SwitchStmt:
+								chk(x.Body, false)
+							case *ast.CaseClause:
+								for _, st := range x.Body {
+									chk(st, false)
+								}
+							case *ast.ForStmt:
+								chk(x.Body, false)
+							case *ast.RangeStmt:
+								chk(x.Body, false)
+							}
+						}
+						chk(fl.Body, false)
 						// the callback's final statement must be `return true`
 						last := fl.Body.List[len(fl.Body.List)-1]
 						if rs, ok := last.(*ast.ReturnStmt); !ok || len(rs.Results) != 1 {
